@@ -28,6 +28,7 @@ func runC10(c *Ctx) {
 	ruleCancelBound(c, p, roles, "C10.cancel-bound")
 	ruleNoStrayGoroutine(c, p, roles, "C10.no-stray-goroutine")
 	ruleWritesUnderWatch(c, p, roles, "C10.write-watched")
+	ruleTimeoutSource(c, p, "C10.timeout-source")
 	ruleNoLeak(c, p, roles, "C10.leak")
 	ruleHandshakeWatchdog(c, p)
 	rulePacketDeadline(c, p, "C10.deadline")
@@ -1179,4 +1180,104 @@ func ruleWritesUnderWatch(c *Ctx, p *core.Program, r *doRoles, rule string) {
 	if !bad {
 		c.R.Ok(rule, core.FuncName(r.Do), cfg, p.Pos(r.Do.Pos()), sprintf("%d calls in Do's own frame, none reaches a connection write", n))
 	}
+}
+
+// paramOriginsAccepted: every static caller (in package ch) of the unexported fn passes for parameter pr a value
+// whose field origin accept() approves, or its own parameter that satisfies the same (depth-bounded).
+func paramOriginsAccepted(p *core.Program, fn *ssa.Function, pr *ssa.Parameter, accept func(string) bool, depth int) (string, bool) {
+	if depth > 2 || fn.Object() == nil || fn.Object().Exported() {
+		return "", false
+	}
+	idx := -1
+	for i, q := range fn.Params {
+		if q == pr {
+			idx = i
+		}
+	}
+	if idx < 0 {
+		return "", false
+	}
+	callers := 0
+	bad := ""
+	for _, g := range p.Funcs() {
+		if g.Pkg == nil || g.Pkg.Pkg.Path() != core.PkgCh {
+			continue
+		}
+		for _, call := range core.Calls(g) {
+			if core.StaticFn(call) != fn {
+				continue
+			}
+			args := call.Common().Args
+			if idx >= len(args) {
+				return "", false
+			}
+			callers++
+			a := args[idx]
+			// a merge of several values (a loop-carried variable) is not "the field"
+			merged := core.DependsOn(a, func(x ssa.Value) bool { _, isPhi := x.(*ssa.Phi); return isPhi }, false)
+			if !merged && accept(core.FieldOrigin(a, 0)) {
+				continue
+			}
+			if q, ok := stripConv(a).(*ssa.Parameter); ok {
+				if _, ok := paramOriginsAccepted(p, g, q, accept, depth+1); ok {
+					continue
+				}
+			}
+			bad = core.FuncName(g) + " passes " + orDash(core.FieldOrigin(a, 0), a)
+		}
+	}
+	if callers == 0 {
+		return "", false
+	}
+	return bad, bad == ""
+}
+
+// ruleTimeoutSource (C10 / C08): the receive loop waits for a packet no longer than the configured read timeout.
+func ruleTimeoutSource(c *Ctx, p *core.Program, rule string) {
+	c.R.Rule(rule, "wherever package ch computes a read deadline as time.Now().Add(d) on the receive path (the function that also asks the context for its deadline), d is Client.readTimeout itself - read in place, or a parameter for which every caller passes Client.readTimeout: a loop-carried duration that grows while the server is silent (poll less often) stretches the time until a cancelled context is noticed from one read timeout to whatever the back-off has reached")
+	cfg := p.Cfg.Name
+	n := 0
+	for _, fn := range p.Funcs() {
+		if pkgOf(fn) == nil || pkgOf(fn).Path() != core.PkgCh || fn.Blocks == nil || isServerSide(fn) {
+			continue
+		}
+		asksCtx := false
+		for _, call := range core.Calls(fn) {
+			cc := call.Common()
+			if cc.IsInvoke() && cc.Method.Name() == "Deadline" && core.IsNamed(cc.Value.Type(), "context", "Context") {
+				asksCtx = true
+			}
+		}
+		if !asksCtx || !core.ReachesCallee(fn, func(f *types.Func) bool { return f.Name() == "SetReadDeadline" }, 1) {
+			continue
+		}
+		for _, call := range core.Calls(fn) {
+			f := core.CalleeFunc(call)
+			if f == nil || !core.IsMethod(f, "time", "Time", "Add") || len(call.Common().Args) != 2 {
+				continue
+			}
+			n++
+			key := core.CallKey(fn, call)
+			d := call.Common().Args[1]
+			isRT := func(o string) bool { return o == "Client.readTimeout" }
+			dMerged := core.DependsOn(d, func(x ssa.Value) bool { _, isPhi := x.(*ssa.Phi); return isPhi }, false)
+			switch {
+			case !dMerged && isRT(core.FieldOrigin(d, 0)):
+				c.R.Ok(rule, key, cfg, p.Pos(call.Pos()), "now + Client.readTimeout")
+			default:
+				if pr, ok := stripConv(d).(*ssa.Parameter); ok {
+					if why, ok := paramOriginsAccepted(p, fn, pr, isRT, 0); ok {
+						c.R.Ok(rule, key, cfg, p.Pos(call.Pos()), "now + parameter "+pr.Name()+"; every caller passes Client.readTimeout")
+						continue
+					} else if why != "" {
+						c.R.Bad(rule, key, cfg, p.Pos(call.Pos()), "the read deadline is now + "+pr.Name()+", and "+why+": the wait for a packet is no longer bounded by the configured read timeout")
+						continue
+					}
+				}
+				c.R.Bad(rule, key, cfg, p.Pos(call.Pos()), sprintf("the read deadline is now + %s, not now + Client.readTimeout", orDash(core.FieldOrigin(d, 0), d)))
+			}
+		}
+	}
+	c.R.Count("read deadlines computed from a duration", n)
+	c.R.Floor(rule, cfg, n, 1)
 }
